@@ -293,14 +293,22 @@ func (la *lockAnalysis) buildDynamicEdges() {
 	wrapRetry := c.Func("wrapErrorWithRetry")
 	var invokers []ssa.Instruction
 	var invokerFns []*ssa.Function
+	seenInv := map[ssa.Instruction]bool{}
 	if a.WithReqCtx != nil {
 		for _, w := range a.WithReqCtx.AnonFuncs {
 			eachInstr(w, func(in ssa.Instruction) {
 				if k, ok := in.(*ssa.Call); ok && !k.Call.IsInvoke() && c.StaticCalleeOf(&k.Call) == nil && len(k.Call.Args) == 2 {
 					invokers = append(invokers, in)
 					invokerFns = append(invokerFns, w)
+					seenInv[in] = true
 				}
 			})
+		}
+	}
+	for _, bc := range c.boundingClosures(a) {
+		if !seenInv[bc.Invoke] {
+			invokers = append(invokers, bc.Invoke)
+			invokerFns = append(invokerFns, bc.Fn)
 		}
 	}
 	if er := c.Method("errorWithRetry", "Retry"); er != nil {
